@@ -492,6 +492,7 @@ type HuntHit struct {
 	Scen    *Scen   `json:"scen,omitempty"`
 	Mat     *MatCase `json:"mat,omitempty"`
 	Jet     *JetRef `json:"jet,omitempty"`
+	Sp      *SpCase `json:"sp,omitempty"`
 	Failure string  `json:"failure"`
 	Aliased string  `json:"aliased"`
 	Fresh   string  `json:"fresh"`
